@@ -80,6 +80,100 @@ theorem perigee_secular_rate_partial (j j' : ℝ) (h : |cent j| ≤ 60) (h' : |c
       |cent j' - cent j| * (142 / 100) :=
   ⟨rfl, perigee_poly_rate h h'⟩
 
+/-! ## Internal consistency of the fundamental arguments (Meeus 47.1-47.7)
+
+The position theory uses five polynomials (L', D, M, M', F); `longitude_mean_ascending_node` and
+`longitude_mean_perigee` are two more. By definition F = L' - Ω and M' = L' - ϖ: the library's own
+formulas must agree with each other. A slip in one coefficient (a flipped sign, a lost term) of
+any of L', F, M', Ω, ϖ falsifies these statements. -/
+
+/-- the argument of latitude is the mean longitude minus the node longitude: `F - (L' - Ω)` is EXACTLY
+    the polynomial below (a constant 0.0002° and rounding-size coefficients), hence at most 0.0095° for
+    every epoch within 60 centuries of J2000 -/
+theorem latitude_argument_identity (t : ℝ) :
+    arg_F t - (arg_Lprime t - node_poly t) =
+      61 / 312500 - t / 100000000 + t ^ 2 / 10000000 - 36703544881 / 905215681650406000 * t ^ 3
+        - 108419 / 852907007449560000 * t ^ 4 ∧
+    (|t| ≤ 60 → |arg_F t - (arg_Lprime t - node_poly t)| ≤ 95 / 10000) := by
+  have e : arg_F t - (arg_Lprime t - node_poly t) =
+      61 / 312500 - t / 100000000 + t ^ 2 / 10000000 - 36703544881 / 905215681650406000 * t ^ 3
+        - 108419 / 852907007449560000 * t ^ 4 := by
+    rw [arg_F_eq, arg_Lprime_eq, node_poly_eq]; ring
+  refine ⟨e, fun ht => ?_⟩
+  rw [e]
+  obtain ⟨h2, h3, h4, p2, p4⟩ := pow_bounds_60 ht
+  have a := abs_le.mp ht
+  have b := abs_le.mp h3
+  rw [abs_le]; constructor <;> linarith [a.1, a.2, b.1, b.2]
+
+/-- the Moon's mean anomaly is the mean longitude minus the perigee longitude — PARTIAL: `M' - (L' - ϖ)` is
+    EXACTLY the polynomial below; constant, linear, quadratic and cubic parts agree to rounding, but the
+    quartic terms do NOT cancel: the source has `+ t/14712000` in M' while `L' - ϖ` has
+    `-1/65194000 - 1/18999000 = -1/14712000`, so M' departs from L' - ϖ by `2 T⁴/14712000` (0.35° at
+    T = -40 centuries). After removing that doubled term the residual is at most 0.0003° on |T| ≤ 60.
+    The full identity `|M' - (L' - ϖ)| ≤ 0.0003` is therefore FALSE of the current code (suspected sign
+    slip of the source: Meeus (47.4) has `- T⁴/14712000`); the code is modelled as it is. -/
+theorem anomaly_argument_identity_partial (t : ℝ) :
+    arg_Mprime t - (arg_Lprime t - perigee_poly t) =
+      61 / 312500 - t / 100000000 - 10113376 / 30065636349542427 * t ^ 3
+        + 412878037 / 3037098216312000 * t ^ 4 ∧
+    (|t| ≤ 60 → |arg_Mprime t - (arg_Lprime t - perigee_poly t) - 2 * t ^ 4 / 14712000| ≤ 3 / 10000) := by
+  have e : arg_Mprime t - (arg_Lprime t - perigee_poly t) =
+      61 / 312500 - t / 100000000 - 10113376 / 30065636349542427 * t ^ 3
+        + 412878037 / 3037098216312000 * t ^ 4 := by
+    rw [arg_Mprime_eq, arg_Lprime_eq, perigee_poly_eq]; ring
+  refine ⟨e, fun ht => ?_⟩
+  rw [e]
+  obtain ⟨h2, h3, h4, p2, p4⟩ := pow_bounds_60 ht
+  have a := abs_le.mp ht
+  have b := abs_le.mp h3
+  rw [abs_le]; constructor <;> linarith [a.1, a.2, b.1, b.2]
+
+/-- the departure is real: at T = -40 centuries (year -2000) M' and L' - ϖ differ by more than 0.34° -/
+theorem anomaly_argument_identity_counterexample :
+    34 / 100 < |arg_Mprime (-40) - (arg_Lprime (-40) - perigee_poly (-40))| := by
+  rw [(anomaly_argument_identity_partial (-40)).1]
+  rw [lt_abs]; left; norm_num
+
+/-- "node … longitudes": the true node is the `Angle` sum of the mean node and a correction of at most
+    1.9682° (sum of the five generated amplitudes), for every epoch within 60 centuries -/
+theorem true_node_near_mean (jde : ℝ) (h : |cent jde| ≤ 60) :
+    ∃ corr : ℝ, |corr| ≤ 19682 / 10000 ∧
+      longitude_true_ascending_node jde = reduce_deg (longitude_mean_ascending_node jde + corr) := by
+  have hb : ∀ env : List ℝ, |evalTerms 1.0 (cent jde) env MoonData.truenode_corr| ≤ 19682 / 10000 := fun env =>
+    (abs_evalTerms_le (by norm_num : |(1.0 : ℝ)| ≤ 1) h env _).trans tsum_truenode
+  refine ⟨evalTerms 1.0 (cent jde) [pradians (red_pos (arg_D (cent jde))), pradians (red_pos (arg_M (cent jde))),
+    pradians (red_pos (arg_Mprime (cent jde))), pradians (red_pos (arg_F (cent jde)))] MoonData.truenode_corr, hb _, ?_⟩
+  unfold longitude_true_ascending_node
+  simp only
+  rw [reduce_deg_of_lt (lt_of_le_of_lt (hb _) (by norm_num))]
+
+/-! ## Structure of the generated tables (decided by the kernel on the regenerated data) -/
+
+/-- tables 47.A and 47.B have 60 rows each, and no row has |M| > 2: the eccentricity factor (E for
+    |M| = 1, E² for |M| = 2, none for M = 0) is applied to every row that needs one -/
+theorem tables_shape :
+    MoonData.tableLR.length = 60 ∧ MoonData.tableB.length = 60 ∧
+    (MoonData.tableLR.all fun r => decide (r.m.natAbs ≤ 2)) = true ∧
+    (MoonData.tableB.all fun r => decide (r.m.natAbs ≤ 2)) = true := by
+  refine ⟨by decide, by decide, by decide, by decide⟩
+
+/-- New Moon and Full Moon corrections of `moon_phase` have the same 25 terms in the same order — same
+    argument, same sin, same power of the eccentricity factor E — and amplitudes within 0.01 d of each other
+    (Meeus gives one column of arguments for both) -/
+theorem phase_new_full_same_terms :
+    MoonData.phase_corr_new.map termShape = MoonData.phase_corr_full.map termShape ∧
+    ((MoonData.phase_corr_new.zip MoonData.phase_corr_full).all fun p => decClose 2 p.1.c0 p.2.c0) = true ∧
+    MoonData.phase_corr_new.length = 25 := by
+  refine ⟨by decide, by decide, by decide⟩
+
+/-- the corrections for the northern and the southern extreme declination (time and value) have the same
+    terms in the same order: same argument, same sin/cos, same power of E -/
+theorem decl_north_south_same_terms :
+    MoonData.decl_corr_north.map termShape = MoonData.decl_corr_south.map termShape ∧
+    MoonData.decl_cor2_north.map termShape = MoonData.decl_cor2_south.map termShape := by
+  refine ⟨by decide, by decide⟩
+
 /-! ## moon_phase — targets "new", "first", "full", "last" -/
 
 /-- "every target string": the names "new", "first", "full", "last" are accepted (a result is
@@ -467,6 +561,18 @@ theorem decl_within_1p6_months {s : String} (hs : s = "northern" ∨ s = "southe
   have := declC_le s
   rw [abs_le]
   constructor <;> norm_num at n ⊢ <;> linarith [n.1, n.2]
+
+/-- "declination is extremal … with the reported value" — the structural part: for every query of the years
+    -2000..4000 the reported extreme declination is `23.6961 - 0.013004 T + cor2` with `|cor2| ≤ 5.709`
+    (sum of the generated amplitudes), positive and between 17.4° and 30° for "northern", negated — between
+    -30° and -17.4° — for "southern"; the `Angle` reduction does not alter it. (That this is the Moon's
+    declination at that instant to 0.15° is measured on the implementation only.) -/
+theorem decl_reported_value_sign_and_range {s : String} (hs : s = "northern" ∨ s = "southern")
+    {jde r p : ℝ} (h1 : 990557.5 ≤ jde) (h2 : jde ≤ 3182395.5) (e : moon_maximum_declination jde s = .ok (r, p)) :
+    (s = "northern" → 17.4 ≤ p ∧ p ≤ 30) ∧ (s = "southern" → -30 ≤ p ∧ p ≤ -17.4) := by
+  rw [moon_maximum_declination_eq hs] at e
+  cases e
+  exact decl_value_range _ hs (decl_t_range s h1 h2)
 
 /-! ## the hypotheses are satisfiable by concrete, non-trivial inputs -/
 
